@@ -33,12 +33,37 @@ def load():
         return {"fixed": [], "open": []}
 
 
+@trigger("query_region")
+def _query_region(plan, violation, entry):
+    """The minimised failing plan still contains a query inside the named syntactic region of the query space
+    (sim/gen.py query_regions) and the violated oracle is one the finding lists."""
+    from .gen import pool_regions
+    if violation.get("oracle") not in entry.get("oracles", []):
+        return False
+    return entry.get("region") in pool_regions(plan["pool"])
+
+
+@trigger("c20_sibling_levels")
+def _c20_siblings(plan, violation, entry):
+    """Retrieval whose lookup path crosses a trie level holding both a wildcard child and a concrete child that
+    are each compatible with the lookup (computed by the reference model from the stored bindings)."""
+    d = violation.get("detail") or {}
+    return violation.get("oracle") in entry.get("oracles", []) and bool(d.get("sibling_trigger"))
+
+
 def classify(prop_id: str, plan: dict, violation: dict) -> Optional[dict]:
     """Return the open finding whose trigger matches this minimised failing plan, if any."""
     for entry in load().get("open", []):
         if entry.get("property") != prop_id:
             continue
         t = TRIGGERS.get(entry.get("trigger"))
+        if t is not None and t.__code__.co_argcount == 3:
+            try:
+                if t(plan, violation, entry):
+                    return entry
+            except Exception:
+                pass
+            continue
         if t is None:
             continue
         try:
